@@ -3,7 +3,7 @@ from contracts import refs_ctor as _c
 ID = "C12"
 LEVEL = "other"
 CONTRACT_MODULES = ["contracts.refs", "contracts.refs_ctor"]
-FUNCTIONS = [c.qualname for c in _c.CINITS + _c.REDUCES]
+FUNCTIONS = [c.qualname for c in _c.CINITS + _c.REDUCES] + [c.qualname + "@default-pickling" for c in _c.VARIANTS]
 ENGINE = RefsEngine
 RAC = "rac/c12.py"
 RAC_BUDGET = {"quick": 50, "thorough": 300}
